@@ -30,6 +30,8 @@ type epPlan struct {
 	Third      int   `json:"third"`     // 0 none, 1 another goroutine calls Close, 2 another goroutine calls CloseWrite
 	ThirdDelay int   `json:"third_delay_us"`
 	AfterEOF   bool  `json:"read_after_eof"`
+	BigWrites  bool  `json:"big_deadline_writes"` // single Writes larger than the window under a near deadline, resumed from the returned count
+	ZeroReads  int   `json:"zero_length_reads"`   // 1 in n reads uses a nil/empty buffer (0 never)
 }
 
 // opsCap bounds the number of Write calls one direction needs.
@@ -37,16 +39,16 @@ const opsCap = 120
 
 // planEndpoint is the plan of one endpoint. The read buffer is widened so
 // that draining what the peer plans to write takes a bounded number of calls.
-func planEndpoint(seed int64, sess int, id uint64, side int, budget int) epPlan {
-	p := rawPlan(seed, sess, id, side, budget)
-	peer := rawPlan(seed, sess, id, 1-side, budget)
+func planEndpoint(seed int64, sess int, id uint64, side int, budget int, window int) epPlan {
+	p := rawPlan(seed, sess, id, side, budget, window)
+	peer := rawPlan(seed, sess, id, 1-side, budget, window)
 	if need := peer.Total / opsCap; p.MaxRead < need {
 		p.MaxRead = need
 	}
 	return p
 }
 
-func rawPlan(seed int64, sess int, id uint64, side int, budget int) epPlan {
+func rawPlan(seed int64, sess int, id uint64, side int, budget int, window int) epPlan {
 	rng := rand.New(rand.NewSource(int64(mix64(uint64(seed) ^ mix64(uint64(sess)) ^ mix64(id*2+uint64(side))))))
 	p := epPlan{EarlyClose: -1}
 	switch rng.Intn(6) {
@@ -60,6 +62,7 @@ func rawPlan(seed int64, sess int, id uint64, side int, budget int) epPlan {
 	p.MaxWrite = []int{1, 16, 4096, 200 << 10}[rng.Intn(4)]
 	p.MaxRead = []int{1, 64, 4096, 100 << 10}[rng.Intn(4)]
 	// Bound the number of calls, not only the bytes: about opsCap writes.
+	full := p.Total
 	if lim := opsCap * p.MaxWrite / 2; p.Total > lim {
 		p.Total = lim
 	}
@@ -69,8 +72,19 @@ func rawPlan(seed int64, sess int, id uint64, side int, budget int) epPlan {
 	if rng.Intn(6) == 0 {
 		p.EarlyClose = int64(rng.Intn(budget + 1))
 	}
-	p.WDeadline = rng.Intn(5) == 0
+	p.WDeadline = rng.Intn(3) == 0
 	p.RDeadline = rng.Intn(5) == 0
+	if p.WDeadline && rng.Intn(3) != 0 {
+		// Writes larger than the window whose deadline expires after part of
+		// them went out; they need a total of several windows.
+		p.BigWrites = true
+		if want := minInt(full, 6*window+8); p.Total < want {
+			p.Total = want
+		}
+	}
+	if rng.Intn(2) == 0 {
+		p.ZeroReads = 2 + 2*rng.Intn(2)
+	}
 	if rng.Intn(4) == 0 {
 		p.SlowRead = 1 + rng.Intn(8)
 	}
@@ -107,6 +121,9 @@ type endpoint struct {
 	zeroWrites   int
 	partialWrite int
 	wDone, rDone bool // the writer / reader goroutine has returned
+	dlPartial    int  // Writes that returned 0 < n < len with a deadline error
+	dlPartialBig int  // ... of a Write larger than the window
+	zeroReads    int  // Reads with a nil/empty buffer that returned (0, nil)
 }
 
 type problem struct {
@@ -191,11 +208,21 @@ func (cs *c23Session) writer(e *endpoint, rng *rand.Rand) {
 		if size > len(buf) {
 			size = len(buf)
 		}
-		patFill(keyOut, off, buf[:size])
-		if e.plan.WDeadline && rng.Intn(3) == 0 {
+		window := cs.s.cfg.Window
+		if rem := int64(e.plan.Total) - off; e.plan.BigWrites && rem > 1 && rng.Intn(3) == 0 {
+			// One Write larger than the send window with a deadline that will
+			// expire while it waits for window: it must report what it queued.
+			size = minInt(int(rem), minInt(window+1+rng.Intn(2*window+1), 256<<10))
+			if size > len(buf) {
+				buf = make([]byte, size)
+			}
+			e.stream.SetWriteDeadline(time.Now().Add(time.Duration(100+rng.Intn(2000)) * time.Microsecond))
+			deadlineSet = true
+		} else if e.plan.WDeadline && rng.Intn(3) == 0 {
 			e.stream.SetWriteDeadline(time.Now().Add(time.Duration(1+rng.Intn(3000)) * time.Microsecond))
 			deadlineSet = true
 		}
+		patFill(keyOut, off, buf[:size])
 		n, err := e.stream.Write(buf[:size])
 		now := time.Now()
 		cs.progress.Add(1)
@@ -212,6 +239,12 @@ func (cs *c23Session) writer(e *endpoint, rng *rand.Rand) {
 		e.written += int64(n)
 		if err != nil && n > 0 {
 			e.partialWrite++
+			if cls == "deadline" && n < size {
+				e.dlPartial++
+				if size > window {
+					e.dlPartialBig++
+				}
+			}
 		}
 		if err == nil && n < size {
 			e.problems = append(e.problems, problem{"short-write-without-error", fmt.Sprintf("Write of %d bytes returned %d, nil", size, n)})
@@ -247,16 +280,29 @@ func (cs *c23Session) reader(e *endpoint, rng *rand.Rand) {
 	extra := 0
 	for !cs.aborted.Load() {
 		size := readSize(rng, e.plan.MaxRead)
+		target := buf[:size]
+		if e.plan.ZeroReads > 0 && rng.Intn(e.plan.ZeroReads) == 0 {
+			// A Read with an empty (or nil) buffer: it waits for data like any
+			// other Read but must consume nothing, also not the readiness of
+			// the data that is buffered.
+			size, target = 0, buf[:0]
+			if rng.Intn(2) == 0 {
+				target = nil
+			}
+		}
 		if e.plan.RDeadline && rng.Intn(3) == 0 {
 			e.stream.SetReadDeadline(time.Now().Add(time.Duration(1+rng.Intn(3000)) * time.Microsecond))
 			deadlineSet = true
 		}
-		n, err := e.stream.Read(buf[:size])
+		n, err := e.stream.Read(target)
 		now := time.Now()
 		cs.progress.Add(1)
 		cls := errClass(err)
 		e.mu.Lock()
 		e.reads++
+		if size == 0 && err == nil {
+			e.zeroReads++
+		}
 		pos := e.readBytes
 		if n < 0 || n > size {
 			e.problems = append(e.problems, problem{"read-count-out-of-range", fmt.Sprintf("Read into %d bytes returned %d", size, n)})
@@ -272,7 +318,7 @@ func (cs *c23Session) reader(e *endpoint, rng *rand.Rand) {
 				e.addProblem("data-after-eof", fmt.Sprintf("%d bytes returned by a Read after end-of-stream had been reported", n))
 			}
 		}
-		if err == nil && n == 0 {
+		if err == nil && n == 0 && size > 0 {
 			cs.r.Count("reads_returning_0_nil", 1)
 		}
 		if err != nil {
@@ -348,7 +394,7 @@ func (cs *c23Session) diagnose(e *endpoint, pos int64, chunk []byte, bad int) st
 
 func (cs *c23Session) startEndpoint(st *multiplexing.Stream, side int, opener bool) {
 	id := streamID(st)
-	e := &endpoint{id: id, side: side, opener: opener, stream: st, plan: planEndpoint(cs.seed, cs.idx, id, side, cs.budget)}
+	e := &endpoint{id: id, side: side, opener: opener, stream: st, plan: planEndpoint(cs.seed, cs.idx, id, side, cs.budget, cs.s.cfg.Window)}
 	cs.mu.Lock()
 	pair := cs.streams[id]
 	if pair == nil {
@@ -697,6 +743,9 @@ func (cs *c23Session) judge(w, rd *endpoint, completed bool, tShutdown time.Time
 	r.Count("reads", int64(rd.reads))
 	r.Count("zero_length_writes", int64(w.zeroWrites))
 	r.Count("partial_writes_with_error", int64(w.partialWrite))
+	r.Count("deadline_partial_writes", int64(w.dlPartial))
+	r.Count("deadline_partial_writes_larger_than_window", int64(w.dlPartialBig))
+	r.Count("zero_length_reads", int64(rd.zeroReads))
 	if w.wErr != "" {
 		r.Count("write_ended_by:"+w.wErr, 1)
 	}
@@ -780,7 +829,7 @@ func c23() {
 	r.Note("messages_by_kind", kindTotals)
 	r.Assume("the carrier is an in-memory duplex byte queue written for this monitor (random fragmentation, bounded capacity, scheduling noise); it never loses, duplicates or reorders bytes")
 	r.Assume("a multiplexer going down or a session making no progress for 10 s under a healthy control heartbeat is reported here as well, because the bytes written can then not be read")
-	r.Finish("sessions of two real multiplexers over a harness carrier; per session 2..64 streams opened from both sides by 1..3 goroutines each, per stream direction a position-derived pattern, random write sizes 0..200 KiB, read buffers 1..100 KiB, CloseWrite/Close by the writer, early Close by the reader or by a third goroutine, near deadlines with retry; volumes scaled to the receive window; GOMAXPROCS varied per round of sessions. evaluations = stream directions judged; a session is non-trivial if it completed and moved data; distinct = distinct hashes of the order of (sender, message kind) on the wire", 10)
+	r.Finish("sessions of two real multiplexers over a harness carrier; per session 2..64 streams opened from both sides by 1..3 goroutines each, per stream direction a position-derived pattern, random write sizes 0..200 KiB, read buffers 1..100 KiB, CloseWrite/Close by the writer, early Close by the reader or by a third goroutine, near deadlines with retry, single Writes larger than the send window under a deadline that expires mid-write (the writer resumes from the returned count), Reads with nil/empty buffers interleaved while data is buffered; carrier reads fragmented at 1, 2, 3, 7, 17, 512 bytes or unfragmented; volumes scaled to the receive window; GOMAXPROCS varied per round of sessions. evaluations = stream directions judged; a session is non-trivial if it completed and moved data; distinct = distinct hashes of the order of (sender, message kind) on the wire", 10)
 }
 
 func s2flags(w wireSummary) map[string]int {
